@@ -61,7 +61,7 @@ type worldSpec struct {
 	assume   []string
 	probes   map[string][]string // property -> rare-condition probes that are expected to be hit
 	enum     bool                // the world enumerates part of its space exhaustively
-	level    string // evidence level (default exploration)
+	level    string              // evidence level (default exploration)
 }
 
 var worlds = map[string]*worldSpec{
@@ -78,52 +78,52 @@ var worlds = map[string]*worldSpec{
 func init() {
 	worlds["progressworld"] = &worldSpec{
 		name: "progressworld", pkgs: []string{"util/ioutil"}, quick: 16000, thorough: 150000,
-		real: []string{"util/ioutil/progress.go (sum with select-default send, Close, Write, WriteString; channel syntax mechanically rewritten)"},
-		stub: []string{"goroutine scheduling", "the status channel", "writer and consumer tasks (harness)", "the wrapped io.Writer / io.StringWriter (short, failing, partial writes)", "clock"},
-		rule: "one case = one simulated run: a script of 0..8 Write/WriteString calls of sizes 0..64KiB over a fault-injecting wrapped writer, then Close, against 1..2 consumers of four temperaments, under a seeded schedule; non-trivial = at least one context switch where the running task could have continued, forced pre-emption or fired fault; distinct = distinct hash of the full event history",
+		real:   []string{"util/ioutil/progress.go (sum with select-default send, Close, Write, WriteString; channel syntax mechanically rewritten)"},
+		stub:   []string{"goroutine scheduling", "the status channel", "writer and consumer tasks (harness)", "the wrapped io.Writer / io.StringWriter (short, failing, partial writes)", "clock"},
+		rule:   "one case = one simulated run: a script of 0..8 Write/WriteString calls of sizes 0..64KiB over a fault-injecting wrapped writer, then Close, against 1..2 consumers of four temperaments, under a seeded schedule; non-trivial = at least one context switch where the running task could have continued, forced pre-emption or fired fault; distinct = distinct hash of the full event history",
 		assume: []string{"simulated channel semantics conform to the Go specification (simrt conformance suite)", "sampling, not proof: <=8 operations, <=2 consumers per run"},
 	}
-	worlds["laneworld"].probes = map[string][]string{"*": {"select.multi_ready", "non_positive_push_timeout", "task_pushes_a_task", "push_timeout_fired", "push_ctx_error", "cancel_while_push_in_flight", "cancel_with_tasks_pending", "hol_state_with_pinned_workers", "pending_exact_nonzero", "concurrent_recover_2plus", "headcount_checked", "clock.jump", "ctx.cancel_midrun", "ctx.deadline_fired", "ctx.cancel_before_gates",
+	worlds["laneworld"].probes = map[string][]string{"*": {"select.multi_ready", "non_positive_push_timeout", "task_pushes_a_task", "push_timeout_fired", "push_ctx_error", "cancel_while_push_in_flight", "cancel_with_tasks_pending", "hol_state_with_pinned_workers", "pending_exact_nonzero", "many_lanes", "concurrent_waiters", "concurrent_recover_2plus", "headcount_checked", "clock.jump", "ctx.cancel_midrun", "ctx.deadline_fired", "ctx.cancel_before_gates",
 		"cancel_with_queue_goroutine_blocked_in_handover", "cancel_with_queue_goroutine_about_to_hand_over", "cancel_with_worker_idle", "cancel_with_queue_goroutine_idle",
 		"cancel_with_producer_blocked_on_full_lane", "cancel_with_producer_about_to_enqueue", "cancel_with_worker_mid_task"}}
-	worlds["progressworld"].probes = map[string][]string{"*": {"consumer_absent_until_close", "consumer_walked_away", "consumer_late", "consumer_slow", "stringwriter_path", "write.short", "write.error_partial", "write.error_zero"}}
+	worlds["progressworld"].probes = map[string][]string{"*": {"consumer_absent_until_close", "consumer_walked_away", "consumer_late", "consumer_slow", "stringwriter_path", "total_beyond_2GiB", "write.short", "write.error_partial", "write.error_zero"}}
 	propWorld["C19"] = "progressworld"
 	worlds["filterworld"] = &worldSpec{
 		name: "filterworld", pkgs: []string{"util/netutil"}, quick: 4000, thorough: 60000,
-		real: []string{"util/netutil/filter.go (Add, Remove, Contains, list-to-map migration; sync imports shimmed, every field/element/map access instrumented in place)"},
-		stub: []string{"goroutine scheduling", "sync.RWMutex", "atomic.Bool", "client tasks (harness)"},
-		rule: "one case = one simulated run: a prologue that places the filter before, at or beyond the list-to-map switch (with removed slots), then a seeded history of Add/Remove/Contains/invalid-argument calls over a colliding universe of prefixes (C11: one client, model equality after every operation, 4- and 16-byte probes; C12: 1..3 writers owning disjoint ranges, 1..3 readers, pre-emption inside critical sections); non-trivial = at least one context switch where the running task could have continued, forced pre-emption or fired fault (C11 runs are sequential: non-trivial there means distinct operation history); distinct = distinct hash of the full event history",
+		real:   []string{"util/netutil/filter.go (Add, Remove, Contains, list-to-map migration; sync imports shimmed, every field/element/map access instrumented in place)"},
+		stub:   []string{"goroutine scheduling", "sync.RWMutex", "atomic.Bool", "client tasks (harness)"},
+		rule:   "one case = one simulated run: a prologue that places the filter before, at or beyond the list-to-map switch (with removed slots), then a seeded history of Add/Remove/Contains/invalid-argument calls over a colliding universe of prefixes (C11: one client, model equality after every operation, 4- and 16-byte probes; C12: 1..3 writers owning disjoint ranges, 1..3 readers, pre-emption inside critical sections); non-trivial = at least one context switch where the running task could have continued, forced pre-emption or fired fault (C11 runs are sequential: non-trivial there means distinct operation history); distinct = distinct hash of the full event history",
 		assume: []string{"simulated RWMutex/atomic semantics conform to package sync's documentation (simrt conformance suite)", "sampling, not proof: <=40 operations after the prologue, <=3 writers, <=3 readers"},
 	}
 	worlds["logworld"] = &worldSpec{
 		name: "logworld", pkgs: []string{"logger", "httpd", "util/netutil"}, quick: 6000, thorough: 80000,
-		real: []string{"logger/*.go (Nano/Text/JSON handlers, Logger, buffer pool; sync and time imports shimmed, accesses instrumented)", "log/slog", "encoding/json", "strconv", "fmt", "runtime.Callers"},
-		stub: []string{"goroutine scheduling", "sync.Mutex behind outMu", "both sync.Pools (fresh / most recent / stale object chosen by the simulator)", "clock (moves between records by 0..1h; the reference is computed at the instant the record was stamped with)", "caller tasks (harness)", "destination io.Writer (slow, short, failing)"},
-		rule: "one case = one simulated run: handler kind, threshold, colour and source flags, a derivation tree of up to 12 loggers built before and during the run, 1..4 client tasks logging and deriving through shared nodes with generated attribute lists (all slog kinds, nested/inline groups, LogValuer, AnsiString, lines over 16 KiB), a probe record through every node at the end; every line is compared with an isolated replay of its logger's own chain; non-trivial = at least one context switch where the running task could have continued, forced pre-emption or fired fault; distinct = distinct hash of the full event history",
+		real:   []string{"logger/*.go (Nano/Text/JSON handlers, Logger, buffer pool; sync and time imports shimmed, accesses instrumented)", "log/slog", "encoding/json", "strconv", "fmt", "runtime.Callers"},
+		stub:   []string{"goroutine scheduling", "sync.Mutex behind outMu", "both sync.Pools (fresh / most recent / stale object chosen by the simulator)", "clock (moves between records by 0..1h; the reference is computed at the instant the record was stamped with)", "caller tasks (harness)", "destination io.Writer (slow, short, failing)"},
+		rule:   "one case = one simulated run: handler kind, threshold, colour and source flags, a derivation tree of up to 12 loggers built before and during the run, 1..4 client tasks logging and deriving through shared nodes with generated attribute lists (all slog kinds, nested/inline groups, LogValuer, AnsiString, lines over 16 KiB), a probe record through every node at the end; every line is compared with an isolated replay of its logger's own chain; non-trivial = at least one context switch where the running task could have continued, forced pre-emption or fired fault; distinct = distinct hash of the full event history",
 		assume: []string{"the reference is the same code in isolation (fresh root, fresh pool buffers, sequential): a defect that changes isolated and concurrent output identically is invisible here (that is C01/C13 territory, not applicable to this technique)", "sampling, not proof: <=12 loggers, <=4 clients x <=7 operations"},
 	}
 	worlds["httpworld"] = &worldSpec{
 		name: "httpworld", pkgs: []string{"logger", "httpd", "util/netutil"}, quick: 6000, thorough: 80000,
-		real: []string{"httpd/*.go (Mux, trie lookup, Store, ResponseWriter)", "logger/httpd.go (Relay) and the three log handlers", "net/http request/response data types, http.Error", "log/slog, encoding/json, runtime.Stack"},
-		stub: []string{"goroutine scheduling", "sync.Pool behind the Store pool and the log buffer pools (fresh / most recent / stale object chosen by the simulator)", "atomic request counter", "crypto/rand (ID prefix from the PRNG)", "clock", "client tasks (harness)", "http.ResponseWriter (records WriteHeader calls, first status, body; can fail Write)", "log destination"},
-		rule: "one case = one simulated run. C05: a route table drawn from patterns with 0..4 parameters of differing names, 1..3 batches of requests (matching, partially matching then failing, unmatched, handler panicking under a recovering relay) from 1..4 concurrent clients, further routes registered between batches; every observation through Store is compared with the same request on a fresh Mux. C15: 1..6 clients with generated handler behaviours (status, body, panic point, eight panic value kinds, failing client connection) through Mux + Logger.Relay over each log handler; records are paired by request ID. Non-trivial = at least one context switch where the running task could have continued, forced pre-emption or fired fault; distinct = distinct hash of the full event history",
+		real:   []string{"httpd/*.go (Mux, trie lookup, Store, ResponseWriter)", "logger/httpd.go (Relay) and the three log handlers", "net/http request/response data types, http.Error", "log/slog, encoding/json, runtime.Stack"},
+		stub:   []string{"goroutine scheduling", "sync.Pool behind the Store pool and the log buffer pools (fresh / most recent / stale object chosen by the simulator)", "atomic request counter", "crypto/rand (ID prefix from the PRNG)", "clock", "client tasks (harness)", "http.ResponseWriter (records WriteHeader calls, first status, body; can fail Write)", "log destination"},
+		rule:   "one case = one simulated run. C05: a route table drawn from patterns with 0..4 parameters of differing names, 1..3 batches of requests (matching, partially matching then failing, unmatched, handler panicking under a recovering relay) from 1..4 concurrent clients, further routes registered between batches; every observation through Store is compared with the same request on a fresh Mux. C15: 1..6 clients with generated handler behaviours (status, body, panic point, eight panic value kinds, failing client connection) through Mux + Logger.Relay over each log handler; records are paired by request ID. Non-trivial = at least one context switch where the running task could have continued, forced pre-emption or fired fault; distinct = distinct hash of the full event history",
 		assume: []string{"request paths are well-formed (leading slash): what findRoute does with other strings is C04's subject", "C15 runs with colour off and URIs/tokens over [A-Za-z0-9/_-] so that the record tokenizers stay trivial and independent of C01/C13", "sampling, not proof: <=10 routes, <=4 clients x <=5 requests x <=3 batches"},
 	}
 	worlds["fsworld"] = &worldSpec{
 		name: "fsworld", pkgs: []string{"util/osutil"}, quick: 8000, thorough: 20000, enum: true, level: "fault_enumeration",
-		real: []string{"util/osutil/file.go (CopyFile, MoveFile: control flow, defers, error handling)", "io.Copy (32 KiB loop)"},
-		stub: []string{"the file system behind package os (simgo/shim/sos: inodes, links, symlinks, path resolution, two devices, open file descriptions, O_TRUNC at open, rename/unlink semantics) with per-call fault plans", "no concurrency in this property: the scheduler is idle"},
-		rule: "cases = (a) every scenario of {CopyFile, MoveFile} x 8 source contents (0..1 MiB, one with an all-zero middle copy block) x {regular, missing, via symlink} x 17 destination layouts (missing, shorter, longer, same length with other bytes, same path, ./ and dir/../ spellings, symlink to source, hard link of source, directory, parent missing, parent is a file, other mount missing/existing, dangling symlink, symlink to another file, symlink on the other mount to the source), fault-free; (b) for each scenario every single-fault placement: each call of its recorded trace x each errno applicable to that primitive (writes additionally x {0, half, all-but-one} bytes written before the error) - (a) and (b) are enumerated completely; (c) seeded plans of up to three faults over random scenarios. distinct = distinct hash of (scenario, call trace with faults, result); every case is non-trivial (it runs the operation)",
+		real:   []string{"util/osutil/file.go (CopyFile, MoveFile: control flow, defers, error handling)", "io.Copy (32 KiB loop)"},
+		stub:   []string{"the file system behind package os (simgo/shim/sos: inodes, links, symlinks, path resolution, two devices, open file descriptions, O_TRUNC at open, rename/unlink semantics) with per-call fault plans", "no concurrency in this property: the scheduler is idle"},
+		rule:   "cases = (a) every scenario of {CopyFile, MoveFile} x 8 source contents (0..1 MiB, one with an all-zero middle copy block) x {regular, missing, via symlink} x 17 destination layouts (missing, shorter, longer, same length with other bytes, same path, ./ and dir/../ spellings, symlink to source, hard link of source, directory, parent missing, parent is a file, other mount missing/existing, dangling symlink, symlink to another file, symlink on the other mount to the source), fault-free; (b) for each scenario every single-fault placement: each call of its recorded trace x each errno applicable to that primitive (writes additionally x {0, half, all-but-one} bytes written before the error) - (a) and (b) are enumerated completely; (c) seeded plans of up to three faults over random scenarios. distinct = distinct hash of (scenario, call trace with faults, result); every case is non-trivial (it runs the operation)",
 		assume: []string{"the simulated file system is faithful where the property looks: every fault-free scenario is also executed by the unrewritten package on the real file system (second mount: /dev/shm) and must agree in error class and resulting contents", "errors surfacing only at Close and power loss are outside the property's fault list"},
 	}
 	worlds["fsworld"].probes = map[string][]string{"*": {"traces_validated_against_real_fs", "fs.rename:EXDEV", "fs.write:ENOSPC", "fs.read:EIO", "fs.unlink:EPERM", "fs.truncate:EIO"}}
 	propWorld["C18"] = "fsworld"
 	worlds["httpworld"].probes = map[string][]string{
 		"C05": {"nested_request", "panic_unwinds_through_servehttp", "route_with_more_params_added_after_store_pooled", "pool.miss_with_items", "pool.stale_pick"},
-		"C15": {"panic_with_long_stack_trace", "zero_length_first_write", "abort_handler_panic", "panic_before_writing", "panic_after_status", "panic_after_partial_body", "client.write_error", "pool.stale_pick"}}
+		"C15": {"panic_with_long_stack_trace", "zero_length_first_write", "abort_handler_panic", "unhashable_panic_value", "panic_before_writing", "panic_after_status", "panic_after_partial_body", "client.write_error", "pool.stale_pick"}}
 	propWorld["C05"] = "httpworld"
 	propWorld["C15"] = "httpworld"
-	worlds["logworld"].probes = map[string][]string{"*": {"clock_moves_between_records", "line_over_pool_limit", "line_near_pool_limit", "long_key_path", "group_name_reused", "empty_derivation", "siblings_of_derived_parent", "inline_group", "below_threshold", "slow_write", "folded_compared", "pool.miss_with_items", "pool.stale_pick", "sink.short_write", "sink.write_error"}}
+	worlds["logworld"].probes = map[string][]string{"*": {"clock_moves_between_records", "line_over_pool_limit", "message_over_pool_limit", "message_needing_quotes", "line_near_pool_limit", "long_key_path", "group_name_reused", "empty_derivation", "siblings_of_derived_parent", "inline_group", "below_threshold", "slow_write", "folded_compared", "pool.miss_with_items", "pool.stale_pick", "sink.short_write", "sink.write_error"}}
 	propWorld["C02"] = "logworld"
 	propWorld["C03"] = "logworld"
 	worlds["filterworld"].probes = map[string][]string{
@@ -765,8 +765,10 @@ func checkProc(prop, tier string, seed uint64, runsOverride int, keep bool) int 
 		Concurrent int            `json:"concurrent_launches"`
 		Distinct   int            `json:"distinct_schedules"`
 		Failing    []struct {
-			Plan      map[string]any   `json:"plan"`
-			Peers     []map[string]any `json:"group_plans"`
+			Plan      map[string]any     `json:"plan"`
+			Peers     []map[string]any   `json:"group_plans"`
+			Prior     []map[string]any   `json:"prior_failed_launches"`
+			History   [][]map[string]any `json:"history"`
 			Violation struct {
 				Class  string `json:"class"`
 				Detail string `json:"detail"`
@@ -811,6 +813,10 @@ func checkProc(prop, tier string, seed uint64, runsOverride int, keep bool) int 
 		// the minimised schedule is the single forced launch, alone; a
 		// violation inside a burst is replayed as that burst
 		plan := f.Plan
+		origPlan := map[string]any{}
+		for k, v := range plan {
+			origPlan[k] = v
+		}
 		rep := map[string]any{"property": prop, "world": "procworld", "seed": seed, "plan": plan, "violation": f.Violation, "events": f.Events, "tree": treeID()}
 		if b, _ := plan["burst"].(bool); b && len(f.Peers) > 1 {
 			rep["plans"] = f.Peers
@@ -818,10 +824,28 @@ func checkProc(prop, tier string, seed uint64, runsOverride int, keep bool) int 
 			plan["group"] = 0
 			plan["name"] = "h0"
 		}
+		if len(f.Prior) > 0 {
+			// a history: the failed launches the caller had made before
+			rep["prior"] = f.Prior
+		}
 		path := filepath.Join(verifDir, "replays", fmt.Sprintf("%s-%d-%d.json", prop, seed, nViol))
 		rb, _ := json.MarshalIndent(rep, "", " ")
 		os.WriteFile(path, rb, 0644)
 		ro, code := runTool(bin, "-replay", path)
+		if code == 0 && len(f.History) > 0 {
+			// the short form (failed launches, then this one) did not show it:
+			// the violation depends on more of what the caller did before;
+			// replay the caller's complete history
+			delete(rep, "prior")
+			rep["history"] = f.History
+			rep["plan"] = origPlan
+			if len(f.Peers) > 1 {
+				rep["plans"] = f.Peers
+			}
+			rb, _ = json.MarshalIndent(rep, "", " ")
+			os.WriteFile(path, rb, 0644)
+			ro, code = runTool(bin, "-replay", path)
+		}
 		fmt.Print(ro)
 		if code != 1 {
 			fmt.Fprintf(os.Stderr, "simcheck: the violation (%s) does not replay (exit %d): infrastructure trouble, not a verdict\n", f.Violation.Detail, code)
@@ -841,17 +865,17 @@ func checkProc(prop, tier string, seed uint64, runsOverride int, keep bool) int 
 		"assumptions": []string{"schedule forcing over real processes: the property-relevant order space (position of Done() relative to the launcher's steps; of Launch's return relative to the daemon's pre-Done work) is covered by four forced schedules; kernel micro-timing inside a forced order is not controlled", "the pause hook (build tag verif) only adds a wait; with the tag off it is an empty function"},
 		"coverage": map[string]any{
 			"evaluations": st.Launches, "distinct_nontrivial": st.Distinct,
-			"rule":                    "one case = one daemon.Launch with three real processes under a forced schedule: S1 natural, S2 Done() delivered while the launcher is parked before it listens, S3 daemon parked before Done() (Launch must still be waiting after 150ms), S4 launcher released first and daemon 50ms later; 0..5 marker files written before Done(); the launcher process lingering 0, 3 or 40 ms between launch() returning and its exit; alone, 2..4 launches concurrently under forced schedules, or bursts of 2..8 natural-order launches of different handlers released together; distinct = distinct (schedule, markers, concurrency width); all are non-trivial (a forced or concurrent order)",
-			"samples":                 st.Samples,
-			"per_schedule":            st.PerKind,
-			"concurrent_launches":     st.Concurrent,
-			"runs_per_hour":           int(float64(st.Launches) / wall * 3600),
-			"faults_fired":            map[string]int{"launcher.parked_before_listening": st.PerKind["S2"] + st.PerKind["S4"], "daemon.slow_before_done": st.PerKind["S3"] + st.PerKind["S4"]},
-			"real_components":         []string{"daemon/daemon.go", "os/exec, os/signal, the Go runtime", "the kernel (fork/exec, SIGINT, reparenting)"},
-			"stub_components":         []string{"none: the order of the three processes is forced through gate files (one guarded pause hook in daemon.launch, harness code in the daemon's handler and in the caller)"},
-			"tree":                    treeID(),
-			"known_findings_seen":     knownLines,
-			"exhaustive":              false,
+			"rule":                "one case = one daemon.Launch with three real processes under a forced schedule: S1 natural, S2 Done() delivered while the launcher is parked before it listens, S3 daemon parked before Done() (Launch must still be waiting after 150ms), S4 launcher released first and daemon 50ms later, S0 (a fault, about one group in five) the handler exits before Done() and the launches that follow in the same caller are the ones checked; 0..5 marker files written before Done(); the launcher process lingering 0, 3 or 40 ms between launch() returning and its exit; alone, 2..4 launches concurrently under forced schedules, or bursts of 2..8 natural-order launches of different handlers released together; distinct = distinct (schedule, markers, concurrency width); all are non-trivial (a forced or concurrent order)",
+			"samples":             st.Samples,
+			"per_schedule":        st.PerKind,
+			"concurrent_launches": st.Concurrent,
+			"runs_per_hour":       int(float64(st.Launches) / wall * 3600),
+			"faults_fired":        map[string]int{"launcher.parked_before_listening": st.PerKind["S2"] + st.PerKind["S4"], "daemon.slow_before_done": st.PerKind["S3"] + st.PerKind["S4"], "daemon.exits_before_done": st.PerKind["S0"]},
+			"real_components":     []string{"daemon/daemon.go", "os/exec, os/signal, the Go runtime", "the kernel (fork/exec, SIGINT, reparenting)"},
+			"stub_components":     []string{"none: the order of the three processes is forced through gate files (one guarded pause hook in daemon.launch, harness code in the daemon's handler and in the caller)"},
+			"tree":                treeID(),
+			"known_findings_seen": knownLines,
+			"exhaustive":          false,
 		},
 	}
 	os.MkdirAll(filepath.Join(verifDir, "evidence"), 0755)
